@@ -78,7 +78,10 @@ Load(sys, m, chain) ==
 
 \* ---- templates: every use  t{a1,...,an}  of a template becomes a reference to an instance rule ---------------
 InstName(e) == LET RECURSIVE J(_)
-                   J(k) == IF k > Len(e.args) THEN "" ELSE (IF k > 1 THEN "," ELSE "") \o e.args[k].name \o J(k + 1)
+                   \* an argument is a symbol AND whether its token is kept: t{"a"} (anonymous, filtered, named A after main's
+                   \* terminal with that text) and t{A} are two instances when written out by hand
+                   J(k) == IF k > Len(e.args) THEN ""
+                           ELSE (IF k > 1 THEN "," ELSE "") \o e.args[k].name \o (IF e.args[k].k = "tok" /\ ~e.args[k].keep THEN "~" ELSE "") \o J(k + 1)
                IN e.name \o "{" \o J(1) \o "}"
 RECURSIVE Subst(_, _, _), UsesOf(_)
 \* replace parameter references by the arguments
